@@ -210,6 +210,31 @@ class GBr:
         return it.bind_descriptor(_find_in_mro(self.cls, name), self, self.cls, name)
 
 
+class GFld:
+    """a:fld (slide number / date field) in the prior state of a paragraph"""
+
+    __pyvc_symbolic__ = True
+    TAG = "a:fld"
+
+    def __init__(self):
+        from pptx.oxml.text import CT_TextField
+
+        self.cls = CT_TextField
+
+    def sym_pytype(self):
+        return self.cls
+
+    def sym_truth(self, it):
+        return True
+
+    def sym_getattr(self, it, name):
+        if name == "text":
+            return "FIELD"
+        from pyvc.engine import _find_in_mro
+
+        return it.bind_descriptor(_find_in_mro(self.cls, name), self, self.cls, name)
+
+
 class GPara:
     """a:p: optional pPr, content children (runs / breaks), optional endParaRPr."""
 
@@ -239,6 +264,16 @@ class GPara:
             if name == "add_br":
                 return it.bind_descriptor(_find_in_mro(self.cls, name), self, self.cls, name)
             return GhostFn(lambda i2, a, k: (self.kids.append(GBr()), self.kids[-1])[1])
+        if name == "remove_all":
+            def rm_all(i2, a, k):
+                i2.path.assumed.add("BaseOxmlElement.remove_all(*tags) removes exactly the children with those tags (C10 summary)")
+                tag_of = lambda kid: {GRun: "a:r", GBr: "a:br", GFld: "a:fld"}.get(type(kid))
+                self.kids = [kid for kid in self.kids if tag_of(kid) not in a]
+                if "a:pPr" in a:
+                    self.pPr = None
+                if "a:endParaRPr" in a:
+                    self.end = None
+            return GhostFn(rm_all)
         if name == "remove":
             def rm(i2, a, k):
                 if a[0] in self.kids:
@@ -351,7 +386,7 @@ def _make_paragraph(pat):
         from pptx.oxml.text import CT_TextCharacterProperties, CT_TextParagraphProperties
 
         pPr, end = SObj(CT_TextParagraphProperties, "a:pPr"), SObj(CT_TextCharacterProperties, "a:endParaRPr")
-        old = [GRun(), GBr(), GRun()]
+        old = [GRun(), GBr(), GFld(), GRun()]
         old[0].t.fields["text"] = "old"
         p = GPara(pPr=pPr, kids=old, end=end)
         para = SObj(_Paragraph, "paragraph", _element=p, _p=p)
@@ -527,6 +562,37 @@ def _native_strings(tier="quick", seed=0):
         want_r = re.sub(r"([\x00-\x08\x0B-\x1F])", lambda m: "_x%04X_" % ord(m.group(1)), s)
         if r.text != want_r:
             bad = bad or ("run.text = %r reads %r, documented %r" % (s, r.text, want_r))
+    # prior states: paragraphs that already hold a field, line breaks, paragraph properties and a:endParaRPr (PowerPoint-authored shape)
+    from pptx.oxml import parse_xml
+    from pptx.oxml.ns import nsdecls
+
+    for s in strings[: 1 + len(alphabet) + len(alphabet) ** 2]:
+        evals += 1
+        for which in ("paragraph", "frame"):
+            tb2 = slide.shapes.add_textbox(Emu(0), Emu(0), Emu(100), Emu(100))
+            txBody = tb2.text_frame._txBody
+            for old_p in list(txBody.p_lst):
+                txBody.remove(old_p)
+            txBody.append(parse_xml('<a:p %s><a:pPr algn="r" lvl="2"/><a:r><a:rPr b="1"/><a:t>old</a:t></a:r><a:br/><a:fld id="{B6F15528-21DE-4FAA-801E-634DDDAF4B2B}" type="slidenum">'
+                                    '<a:rPr/><a:t>7</a:t></a:fld><a:r><a:t>tail</a:t></a:r><a:endParaRPr lang="en-US"/></a:p>' % nsdecls("a")))
+            txBody.append(parse_xml('<a:p %s><a:r><a:t>second</a:t></a:r></a:p>' % nsdecls("a")))
+            if which == "paragraph":
+                p2 = tb2.text_frame.paragraphs[0]
+                p2.text = s
+                want_p = "\v".join(esc(x) for x in re.split("\n|\v", s))
+                kids = [k.tag.split("}")[1] for k in p2._p]
+                if p2.text != want_p:
+                    bad = bad or ("paragraph (with field, break, pPr, endParaRPr).text = %r reads %r, documented %r" % (s, p2.text, want_p))
+                if kids[:1] != ["pPr"] or kids[-1:] != ["endParaRPr"] or p2.level != 2 or p2.alignment != 3:
+                    bad = bad or ("paragraph.text = %r on a paragraph with properties leaves children %s, level %s" % (s, kids, p2.level))
+                if tb2.text_frame.paragraphs[1].text != "second":
+                    bad = bad or ("paragraph.text = %r changed the neighbouring paragraph" % (s,))
+            else:
+                tb2.text_frame.text = s
+                want_frame = "\n".join("\v".join(esc(x) for x in re.split("\v", para)) for para in s.split("\n"))
+                if tb2.text_frame.text != want_frame or len(txBody.p_lst) != s.count("\n") + 1:
+                    bad = bad or ("frame (two paragraphs, field).text = %r reads %r in %d paragraphs, documented %r" % (s, tb2.text_frame.text, len(txBody.p_lst), want_frame))
+            tb2._element.getparent().remove(tb2._element)
     ob1 = {"name": "C04.native.four_levels", "base": "C04.native.four_levels", "kind": "bounded", "status": "refuted" if bad else "discharged", "backend": "native", "time": 0, "path": 0}
     if bad:
         ob1["replay"] = {"confirmed": True, "witness_class": "text-roundtrip", "detail": bad}
